@@ -16,20 +16,64 @@ import (
 	"verifharness/vh"
 )
 
-// runHist executes a complete history; returns the run and the first oracle failure.
-func runHist(h Hist, prop string) (run *Run, failKind, failDesc string, failAt int) {
-	run = NewRun(h)
-	failAt = -1
-	for i, op := range h.Ops {
-		pre := run.Pre
-		st := run.Step(op)
-		if failKind == "" {
-			if k, d := check(prop, run, pre, st.Post, st); k != "" {
-				failKind, failDesc, failAt = k, d, i
+type fail struct{ kind, desc string }
+
+// evalRun evaluates the property oracle after every transaction of an executed history.
+func dumpRun(run *Run) {
+	for i, st := range run.Steps {
+		fmt.Printf("step %d %s ok=%v err=%s\n", i, st.Kind, st.OK, st.Err)
+		for _, l := range sortedLabels(st.Post.Allocs) {
+			a := st.Post.Allocs[l]
+			if a == nil {
+				continue
 			}
+			fmt.Printf("   alloc %d wp=%d cp=%d mtc=%d mb=%d used=%d exp=%d:", l, a.WP, a.CP, a.MTC, a.MB, a.Used, a.Exp)
+			for _, d := range a.BAs {
+				fmt.Printf(" [b%d size=%d cpiv=%d used=%d wp=%d lf=%d ls=%d]", d.Blobber, d.Size, d.CPIV, d.Used, d.WP, d.LF, d.LS)
+			}
+			fmt.Println()
 		}
 	}
-	return
+}
+
+func evalRun(run *Run, prop string) []fail {
+	if os.Getenv("STORAGE_DUMP") != "" {
+		dumpRun(run)
+	}
+	var out []fail
+	broken := map[int]bool{}
+	prev := run.Init
+	for _, st := range run.Steps {
+		last := ""
+		for n := 0; n < 16; n++ {
+			k, d := check(prop, run, prev, st.Post, st, broken)
+			if k == "" || k == last {
+				break
+			}
+			last = k
+			out = append(out, fail{k, d})
+		}
+		prev = st.Post
+	}
+	return out
+}
+
+// runHist executes a complete history and evaluates the oracle.
+func runHist(h Hist, prop string) (*Run, []fail) {
+	run := NewRun(h)
+	for _, op := range h.Ops {
+		run.Step(op)
+	}
+	return run, evalRun(run, prop)
+}
+
+func hasFail(fs []fail, kind string) bool {
+	for _, f := range fs {
+		if f.kind == kind {
+			return true
+		}
+	}
+	return false
 }
 
 var scripts = []string{"killed-replace", "price-drop-extend", "kill-twice-close", "challenge-cycle", "challenge-cycle"}
@@ -58,18 +102,13 @@ func main() {
 		"non-trivial = at least one transaction changed the projection and one was rejected, and (C12) a challenge pool was non-zero at some point; distinct by full op list"
 	cf := &vh.CasesFile{Imports: []string{"Base.Corr", "Model.F64", "Model.Storage", "Corr.Storage"}, CaseType: "ss_case", CheckFn: "ss_check", Shard: 25}
 
+	shrunk := map[string]bool{}
 	handle := func(h Hist, toCoq bool, run *Run) {
-		var fk, fd string
+		var fails []fail
 		if run == nil {
-			run, fk, fd, _ = runHist(h, prop)
+			run, fails = runHist(h, prop)
 		} else {
-			prev := run.Init
-			for _, st := range run.Steps {
-				if k, d := check(prop, run, prev, st.Post, st); k != "" && fk == "" {
-					fk, fd = k, d
-				}
-				prev = st.Post
-			}
+			fails = evalRun(run, prop)
 		}
 		for k, n := range run.Kinds {
 			rep.CountN(k, n)
@@ -92,22 +131,27 @@ func main() {
 			cf.Add(coqCase(run))
 			rep.CaseInputs = append(rep.CaseInputs, h)
 		}
-		if fk != "" {
+		for _, f := range fails {
+			if shrunk[f.kind] {
+				continue
+			}
+			shrunk[f.kind] = true
+			fk := f.kind
 			keep := vh.ShrinkIdx(len(h.Ops), func(keep []int) bool {
 				h2 := h
 				h2.Ops = nil
 				for _, i := range keep {
 					h2.Ops = append(h2.Ops, h.Ops[i])
 				}
-				_, k2, _, _ := runHist(h2, prop)
-				return k2 == fk
+				_, f2 := runHist(h2, prop)
+				return hasFail(f2, fk)
 			})
 			h2 := h
 			h2.Ops = nil
 			for _, i := range keep {
 				h2.Ops = append(h2.Ops, h.Ops[i])
 			}
-			rep.Violate(prop+":"+fk, fd, h2)
+			rep.Violate(prop+":"+fk, f.desc, h2)
 		}
 	}
 
